@@ -6,6 +6,7 @@
 package main
 
 import (
+	"fmt"
 	"io"
 	"log"
 	"sort"
@@ -188,119 +189,148 @@ func gen(a Args, out *Out) {
 	}
 
 	// 5. several timers in ONE bucket of the wheel (same due tick for the near wheel, due
-	// ticks within one span of an outer level); the head / a middle one / the tail is
-	// cancelled and unlinked by the worker; another timer is then started into the same
-	// bucket; finally every due tick is visited: each timer that was not cancelled must be
-	// delivered on its due tick and leave Size()/IsScheduled().  (A bucket whose tail
-	// pointer went stale loses the timer appended next.)
-	for k := 0; k < 54*scale && k < 54*8; k++ {
-		both(func(impl int64) {
-			r := rng.Fork()
-			level := k % 3 // 0 near, 1 tvec[0], 2 tvec[1]
-			cur0 := pos(r)
-			tt0 := int64(r.PickI64(0, 500))
-			h := drv.NewHist(impl, cur0, tt0)
-			n := r.Range(2, 5)
-			span := int64(1)
-			switch level {
-			case 1:
-				span = 256
-			case 2:
-				span = 16384
-			}
-			// delays whose expiry ticks cur0+d fall into one span-aligned block
-			var base int64
+	// ticks within one span of an outer level); one of them — the only node, the head, a
+	// middle one, the tail — is cancelled; the worker unlinks it at once, or only after
+	// the bucket has been cascaded (the cancelled node travels with the cascade and is
+	// unlinked from the bucket it landed in), or not before its expiry; another timer is
+	// then started into the same bucket; finally every due tick is visited: each timer
+	// that was not cancelled must be delivered on its due tick and leave
+	// Size()/IsScheduled().  (A bucket whose head/tail pointers went stale loses nodes.)
+	sameSlot := func(impl int64, r *Rng, level, victimMode, delMode int) {
+		cur0 := pos(r)
+		tt0 := int64(r.PickI64(0, 500))
+		h := drv.NewHist(impl, cur0, tt0)
+		span := []int64{1, 256, 1 << 14, 1 << 20}[level]
+		n := r.Range(2, 5)
+		if victimMode == 0 {
+			n = 1
+		}
+		var base int64
+		if level == 0 {
+			base = int64(r.Range(2, 250))
+		} else {
+			base = span*2 - int64(cur0)%span // the block of expiry ticks starts at a multiple of span
+		}
+		width := span
+		if width > 5000 {
+			width = 5000
+		}
+		delay := func() int64 {
 			if level == 0 {
-				base = int64(r.Range(1, 250))
-			} else {
-				base = span*int64(r.Range(2, 3)) - int64(cur0)%span
+				return base
 			}
-			delay := func() int64 {
-				if level == 0 {
-					return base
-				}
-				return base + int64(r.Intn(int(span)))
-			}
-			type tmr struct{ id, due int64 }
-			var ts []tmr
-			for i := 0; i < n; i++ {
-				d := delay()
-				id := h.Start(d)
-				h.HandleAdd()
-				ts = append(ts, tmr{id, tt0 + d})
-			}
-			victim := 0
-			switch (k / 3) % 3 {
-			case 1:
-				victim = n / 2
-			case 2:
-				victim = n - 1 // the tail of the bucket
-			}
-			h.Cancel(ts[victim].id)
-			if r.Chance(1, 4) {
-				h.Probe()
-			}
+			return base + int64(r.Intn(int(width)))
+		}
+		type tmr struct{ id, due int64 }
+		var ts []tmr
+		for i := 0; i < n; i++ {
+			d := delay()
+			id := h.Start(d)
+			h.HandleAdd()
+			ts = append(ts, tmr{id, tt0 + d})
+		}
+		victim := 0
+		switch victimMode {
+		case 2:
+			victim = n / 2
+		case 3:
+			victim = n - 1 // the tail of the bucket
+		}
+		h.Cancel(ts[victim].id)
+		if r.Chance(1, 4) {
+			h.Probe()
+		}
+		now := tt0
+		delDone := false
+		if delMode == 0 {
 			h.HandleDel()
-			now := tt0
-			if r.Chance(1, 3) {
-				e := int64(r.Range(1, 3))
-				if level == 0 && base <= e+1 {
-					e = 0
-				}
-				if e > 0 {
-					h.Adv(e)
-					now += e
-				}
-			}
-			// one or two more timers into the same bucket
-			for j := 0; j < r.Range(1, 2); j++ {
-				d := delay() - (now - tt0)
-				id := h.Start(d)
-				h.HandleAdd()
-				ts = append(ts, tmr{id, now + d})
-			}
-			if r.Chance(1, 3) {
-				// cancel the new tail as well and append once more
-				last := len(ts) - 1
-				h.Cancel(ts[last].id)
-				h.HandleDel()
-				ts[last].due = -1
-				d := delay() - (now - tt0)
-				id := h.Start(d)
-				h.HandleAdd()
-				ts = append(ts, tmr{id, now + d})
-			}
-			ts[victim].due = -1
+			delDone = true
+		}
+		if delMode == 0 && r.Chance(1, 3) && level != 0 {
+			e := int64(r.Range(1, 3))
+			h.Adv(e)
+			now += e
+		}
+		// more timers into the same bucket
+		for j := 0; j < r.Range(1, 2); j++ {
+			d := delay() - (now - tt0)
+			id := h.Start(d)
+			h.HandleAdd()
+			ts = append(ts, tmr{id, now + d})
+		}
+		if r.Chance(1, 3) && delMode == 0 {
+			// cancel the new tail as well and append once more
+			last := len(ts) - 1
+			h.Cancel(ts[last].id)
+			h.HandleDel()
+			ts[last].due = -1
+			d := delay() - (now - tt0)
+			id := h.Start(d)
+			h.HandleAdd()
+			ts = append(ts, tmr{id, now + d})
+		}
+		ts[victim].due = -1
+		h.Probe()
+		h.Size()
+		if delMode == 1 && level != 0 {
+			// let the bucket be cascaded with the cancelled node still linked, then unlink it
+			h.Adv(tt0 + base - now)
+			now = tt0 + base
 			h.Probe()
-			h.Size()
-			var dues []int64
-			for _, t := range ts {
-				if t.due >= 0 {
-					dues = append(dues, t.due)
-				}
-			}
-			sort.Slice(dues, func(a, b int) bool { return dues[a] < dues[b] })
-			for _, due := range dues {
-				if due <= now {
-					continue
-				}
-				if due-1 > now {
-					h.Adv(due - 1 - now)
-				}
-				h.Adv(1)
-				now = due
-			}
-			h.Adv(int64(r.Range(1, 300)))
-			h.Size()
-			for _, t := range ts {
-				h.IsSched(t.id)
-			}
+			h.HandleDel()
+			delDone = true
 			h.Probe()
-			out.Count(map[int]string{0: "sameslot:near", 1: "sameslot:tvec0", 2: "sameslot:tvec1"}[level])
-			out.Count(map[int]string{0: "sameslot:cancel-head", 1: "sameslot:cancel-middle", 2: "sameslot:cancel-tail"}[(k/3)%3])
-			emit("sameslot", h)
-		})
+		}
+		var dues []int64
+		for _, t := range ts {
+			if t.due >= 0 {
+				dues = append(dues, t.due)
+			}
+		}
+		sort.Slice(dues, func(a, b int) bool { return dues[a] < dues[b] })
+		for _, due := range dues {
+			if due <= now {
+				continue
+			}
+			if due-1 > now {
+				h.Adv(due - 1 - now)
+			}
+			h.Adv(1)
+			now = due
+		}
+		h.Adv(int64(r.Range(1, 300)))
+		if !delDone {
+			h.HandleDel() // the node expired (dropped) long ago
+		}
+		h.Size()
+		for _, t := range ts {
+			h.IsSched(t.id)
+		}
+		h.Probe()
+		out.Count([]string{"sameslot:near", "sameslot:tvec0", "sameslot:tvec1", "sameslot:tvec2"}[level])
+		out.Count([]string{"sameslot:cancel-only", "sameslot:cancel-head", "sameslot:cancel-middle", "sameslot:cancel-tail"}[victimMode])
+		out.Count([]string{"sameslot:unlink-at-once", "sameslot:unlink-after-cascade", "sameslot:unlink-after-expiry"}[delMode])
+		emit("sameslot", h)
 	}
+	rounds := 1
+	if a.Thorough() {
+		rounds = 8
+	}
+	for round := 0; round < rounds; round++ {
+		for level := 0; level < 3; level++ {
+			for victimMode := 0; victimMode < 4; victimMode++ {
+				for delMode := 0; delMode < 3; delMode++ {
+					both(func(impl int64) { sameSlot(impl, rng.Fork(), level, victimMode, delMode) })
+				}
+			}
+		}
+		// tvec[2] against the model: more than 2^20 ticks to the due time, thorough tier only
+		if a.Thorough() && round < 4 {
+			sameSlot(drv.ImplWheel, rng.Fork(), 3, round%4, round%3)
+		}
+	}
+	deepSlots(a, rng.Fork(), out, 2)
+	deepSlots(a, rng.Fork(), out, 3)
 
 	// 4. request channels filled to capacity: 128 unhandled start requests, a 129th call,
 	// then the worker's tick expires a timer that was accepted earlier
@@ -337,5 +367,119 @@ func gen(a Args, out *Out) {
 			h.Size()
 			emit("full", h)
 		})
+	}
+}
+
+// deepSlots: the same scenario in a bucket of tvec[2] / tvec[3] (delays of at least 2^20 /
+// 2^26 ticks), evaluated in Go only (the model cannot be ticked that far in reasonable time): timers
+// sharing the bucket, one cancelled and unlinked (only / head / middle / tail), another
+// one appended, then every due tick is visited; each surviving timer must be delivered
+// exactly on its due tick and Size() must return to 0.
+func deepSlots(a Args, rng *Rng, out *Out, tv int) {
+	cases := 2
+	if a.Thorough() {
+		cases = 12
+	}
+	if tv == 2 {
+		cases *= 2
+	}
+	for c := 0; c < cases; c++ {
+		r := rng.Fork()
+		victimMode := (c + int(a.Seed)) % 4
+		cur0 := uint64(r.Next() & 0xFFFFFFFF)
+		span := int64(1) << uint(8+6*tv)
+		base := span*2 - int64(cur0)%span
+		if c%2 == 1 {
+			base = span + (span - int64(cur0)%span) // the first block that is at least 2^26 ticks away
+		}
+		n := r.Range(2, 4)
+		if victimMode == 0 {
+			n = 1
+		}
+		h := drv.NewHist(drv.ImplWheel, cur0, 0)
+		d := drv.NewDriver(drv.ImplWheel, cur0, 0)
+		t := d.Timer()
+		type tmr struct {
+			id  int
+			due int64
+			job *drv.Job
+		}
+		var ts []*tmr
+		start := func(delay int64) {
+			j := &drv.Job{Ord: int64(len(ts) + 1)}
+			id := t.RunAfter(int(delay), j)
+			d.HandleAdd()
+			h.Start(delay)
+			h.HandleAdd()
+			ts = append(ts, &tmr{id, delay, j})
+		}
+		for i := 0; i < n; i++ {
+			start(base + int64(r.Intn(4000)))
+		}
+		victim := 0
+		switch victimMode {
+		case 2:
+			victim = n / 2
+		case 3:
+			victim = n - 1
+		}
+		fail := func(what string) {
+			out.Violation("C06/deepslot", what, h.Sx())
+		}
+		p, _ := Catch(func() {
+			if !t.Cancel(ts[victim].id) {
+				fail("Cancel of a pending timer in an outer level returned false")
+			}
+			h.Cancel(int64(ts[victim].id))
+			d.HandleDel()
+			h.HandleDel()
+			ts[victim].due = -1
+			start(base + int64(r.Intn(4000)))
+			start(base + int64(r.Intn(4000)))
+			if _, ok := d.Probe(); !ok {
+				fail("bucket links inconsistent after unlinking a node of an outer-level bucket")
+			}
+			var live []*tmr
+			for _, x := range ts {
+				if x.due >= 0 {
+					live = append(live, x)
+				}
+			}
+			sort.Slice(live, func(i, j int) bool { return live[i].due < live[j].due })
+			now := int64(0)
+			i := 0
+			for i < len(live) {
+				due := live[i].due
+				j := i
+				for j < len(live) && live[j].due == due {
+					j++
+				}
+				if due-1 > now {
+					d.Pass(due - 1 - now)
+					h.Adv(due - 1 - now)
+					if _, got := drv.TickDrain(d); len(got) != 0 {
+						fail("a timer of an outer-level bucket was delivered before its due tick")
+					}
+				}
+				d.Pass(1)
+				h.Adv(1)
+				_, got := drv.TickDrain(d)
+				out.GoChecked += int64(j - i)
+				if len(got) != j-i {
+					fail("timers of an outer-level bucket due on this tick were not delivered on it")
+					return
+				}
+				now = due
+				i = j
+			}
+			h.Size()
+			if sz := t.Size(); sz != 0 {
+				fail("Size() != 0 after every timer of the outer-level bucket was delivered or cancelled")
+			}
+		})
+		if p {
+			fail("scheduler panicked")
+		}
+		out.Count(fmt.Sprintf("deepslot:tvec%d", tv))
 	}
 }
